@@ -83,6 +83,26 @@ func genCliTree(r *rng, all []corpusDoc) []cliFile {
 		}
 		fs = append(fs, cliFile{fmt.Sprintf("%sf%d%s", dirs[r.intn(len(dirs))], i, []string{".txt", ".c", "", ".LICENSE"}[r.intn(4)]), data})
 	}
+	if r.chance(1, 2) {
+		// confidences interleaved across files: file A holds an exact and a heavily edited license, file B a
+		// lightly edited one, so the result list sorted by confidence visits A, B, A
+		pick := func() corpusDoc {
+			d := all[r.intn(len(all))]
+			for len(d.text) > 9000 || len(d.text) < 600 {
+				d = all[r.intn(len(all))]
+			}
+			return d
+		}
+		d1, d2, d3 := pick(), pick(), pick()
+		n2 := len(strings.Fields(string(d2.text)))
+		n3 := len(strings.Fields(string(d3.text)))
+		a := string(d1.text) + "\n\n" + oovBlock(r, 6, 2) + "\n" + string(editWords(r, d2.text, 1+n2/12))
+		b := string(editWords(r, d3.text, 1+n3/40))
+		fs = append(fs, cliFile{"a_two.txt", []byte(a)}, cliFile{"b_one.txt", []byte(b)})
+		if r.chance(1, 2) {
+			fs = append(fs, cliFile{"zz/c_three.txt", []byte(string(editWords(r, d1.text, 2)) + "\n" + oovBlock(r, 4, 1) + "\n" + string(d3.text))})
+		}
+	}
 	return fs
 }
 
